@@ -14,6 +14,9 @@ use rxrust::observer::{BoxObserver, BoxObserverThreads};
 use rxrust::ops::box_it::{BoxIt, CloneableBoxOp, CloneableBoxOpThreads};
 use rxrust::prelude::*;
 
+use rxrust::ops::throttle::ThrottleEdge;
+use rxrust::scheduler::verif::{VerifScheduler, VerifSchedulerThreads};
+
 use crate::sexp::SExp;
 use crate::val::{fn1, fn2, fne, fnopt, pred, Notif, Val};
 
@@ -22,6 +25,18 @@ pub type TBox = CloneableBoxOpThreads<Val, i64>;
 
 fn widen(e: Infallible) -> i64 {
   match e {}
+}
+
+fn ms(e: &SExp) -> Duration {
+  Duration::from_millis(e.nat() as u64)
+}
+
+fn edge(e: &SExp) -> ThrottleEdge {
+  match e.atom() {
+    "l" => ThrottleEdge::leading(),
+    "t" => ThrottleEdge::tailing(),
+    _ => ThrottleEdge::all(),
+  }
 }
 
 fn pair(a: Val, b: Val) -> Val {
@@ -40,6 +55,7 @@ pub struct LCtx {
   pub subjects: Rc<RefCell<Vec<Subject<'static, Val, i64>>>>,
   pub creates: Rc<RefCell<Vec<Subscriber<BoxObserver<'static, Val, i64>>>>>,
   pub counters: Rc<RefCell<Counters>>,
+  pub sched: VerifScheduler,
 }
 
 /// Per-case environment of the thread-safe flavour.
@@ -48,6 +64,7 @@ pub struct TCtx {
   pub subjects: Arc<Mutex<Vec<SubjectThreads<Val, i64>>>>,
   pub creates: Arc<Mutex<Vec<SubscriberThreads<BoxObserverThreads<Val, i64>>>>>,
   pub counters: Arc<Mutex<Counters>>,
+  pub sched: VerifSchedulerThreads,
 }
 
 impl LCtx {
@@ -119,7 +136,7 @@ impl TCtx {
 macro_rules! impl_build {
   ($name:ident, $ctx:ty, $bx:ty,
    $merge:ident, $zip:ident, $combine:ident, $wlf:ident, $take_until:ident,
-   $skip_until:ident, $sample:ident) => {
+   $skip_until:ident, $sample:ident, $delay:ident, $delay_at:ident, $observe_on:ident) => {
     pub fn $name(e: &SExp, ctx: &$ctx) -> $bx {
       let xs = e.list();
       let head = xs[0].atom();
@@ -223,6 +240,52 @@ macro_rules! impl_build {
         "buffer" => {
           $name(&xs[1], ctx).buffer($name(&xs[2], ctx).map(|_| ())).map(Val::List).box_it()
         }
+        // ------------------------------------------- scheduler-using sources
+        "interval" => observable::interval(ms(&xs[1]), ctx.sched.clone())
+          .map(|n: usize| Val::Int(n as i64))
+          .on_error_map(widen)
+          .box_it(),
+        "intervalat" => {
+          // interval_at(now + delay, period)
+          let (d, p, sc) = (ms(&xs[1]), ms(&xs[2]), ctx.sched.clone());
+          observable::defer(move || observable::interval_at(Instant::now() + d, p, sc))
+            .map(|n: usize| Val::Int(n as i64))
+            .on_error_map(widen)
+            .box_it()
+        }
+        "timer" => {
+          let (v, d, sc) = (Val::parse(&xs[1]), ms(&xs[2]), ctx.sched.clone());
+          observable::defer(move || observable::timer(v, d, sc)).on_error_map(widen).box_it()
+        }
+        "timerat" => {
+          let (v, d, sc) = (Val::parse(&xs[1]), ms(&xs[2]), ctx.sched.clone());
+          observable::defer(move || observable::timer_at(v, Instant::now() + d, sc))
+            .on_error_map(widen)
+            .box_it()
+        }
+        // --------------------------------------------- scheduler-using ops
+        "delay" => last().$delay(ms(&xs[1]), ctx.sched.clone()).box_it(),
+        "delayat" => {
+          let (d, sc, src) = (ms(&xs[1]), ctx.sched.clone(), last());
+          observable::defer(move || src.$delay_at(Instant::now() + d, sc)).box_it()
+        }
+        "observeon" => last().$observe_on(ctx.sched.clone()).box_it(),
+        "subscribeon" => last().subscribe_on(ctx.sched.clone()).box_it(),
+        "delaysub" => last().delay_subscription(ms(&xs[1]), ctx.sched.clone()).box_it(),
+        "delaysubat" => {
+          let (d, sc, src) = (ms(&xs[1]), ctx.sched.clone(), last());
+          observable::defer(move || src.delay_subscription_at(Instant::now() + d, sc)).box_it()
+        }
+        "debounce" => last().debounce(ms(&xs[1]), ctx.sched.clone()).box_it(),
+        "throttle" => {
+          let d = ms(&xs[1]);
+          last().throttle(move |_: &Val| d, edge(&xs[2]), ctx.sched.clone()).box_it()
+        }
+        "buftime" => last().buffer_with_time(ms(&xs[1]), ctx.sched.clone()).map(Val::List).box_it(),
+        "bufcounttime" => last()
+          .buffer_with_count_and_time(xs[1].nat(), ms(&xs[2]), ctx.sched.clone())
+          .map(Val::List)
+          .box_it(),
         h => panic!("unknown pipe head {}", h),
       }
     }
@@ -231,7 +294,7 @@ macro_rules! impl_build {
 
 impl_build!(
   build_local, LCtx, LBox, merge, zip, combine_latest, with_latest_from, take_until, skip_until,
-  sample
+  sample, delay, delay_at, observe_on
 );
 impl_build!(
   build_threads,
@@ -243,5 +306,8 @@ impl_build!(
   with_latest_from_threads,
   take_until_threads,
   skip_until_threads,
-  sample_threads
+  sample_threads,
+  delay_threads,
+  delay_at_threads,
+  observe_on_threads
 );
